@@ -31,6 +31,10 @@ CLAIMED = {
          "as C01; absolute times are compared up to the clock anchor of the conversion, as the property states."),
  "C18": ("7 C18", "Seeded search with large Advance gaps, atomic cycles anywhere (each with its own anchor) and wall-clock steps between cycles; oracle from the simulated clock's read log: every record's duration equals a clock read of its finish operation minus a clock read of its start operation, begin times lie in the run's wall-clock window, local spans nest inside their enclosing local span, siblings do not overlap, event timestamps lie inside their local span, Span::elapsed() equals now minus start and is None for non-recording spans.",
          "fastant (TSC calibration) is replaced by the simulated clock: the property is about which instants fastrace stamps and how it converts them, and that code is real."),
+ "C07": ("7 C07", "Seeded search over call sequences from the whole public surface in every state the property lists: no reporter / reporter installed late, no-op and unsampled spans, empty and all-no-op parent sets (incl. set as local parent and queried), property closures that themselves issue tracing calls (re-entrancy), tiny rings, exceeded scope (10240) and stack (4096) limits, panics unwinding through scopes, calls from thread-local destructors registered before and after fastrace's own thread-locals, threads exiting with open handles, collector stalls; oracle: every call returns without unwinding (catch_unwind per operation and inside destructors; process aborts attributed by the driver), no simulator deadlock or step-cap livelock, no call other than flush() waits on a lock or thread of the collector side (first-call registration hand-over exempt), flush() returns.",
+         "guards/local spans are released LIFO on their own thread (the property's only precondition); release build (debug assertions off)."),
+ "C09": ("7 C09", "Seeded search with ring capacities 2..16, collector stalls, bursts of spans/roots/cancels/finishes during the episode, threads exiting with a full ring, scopes with 10240+k local spans and 4096+k nested scopes; oracle: calls never wait or panic, delivered is a subset of recorded (right trace/parent, no duplicate) and recorded minus the logged omissions is delivered, present attachments are on the right span, white-box signal monitor over the consumption log (finish/cancel commands of a thread are consumed in issue order and none disappears while the thread lives), cancel still suppresses the trace, traces started after the episode are complete, limit overflows keep exactly the recorded part.",
+         "ring-full events are taken from the hook log (exact: single producer); the capacity knob is the cfg-gated spsc shim."),
 }
 NOT_APPLICABLE = {
  "C12": "Pure function of one string / one SpanContext: no thread, clock, I/O, fault or interleaving for a simulator to control; input generation alone would be property-based testing, a different technique family (DESIGN §8).",
